@@ -1,7 +1,7 @@
 From Coq Require Import ZArith List Bool.
 From Coq Require Import ExtrOcamlBasic.
 From Falcon.lib Require Import Wire.
-From Falcon.C03 Require Import Model Spec.
+From Falcon.C03 Require Import Model Spec Styles.
 Import ListNotations.
 Open Scope Z_scope.
 
@@ -32,6 +32,21 @@ Definition d_comp (v : val) : comp :=
   {| c_req := d_oaction (nth_val 0 v); c_rsrc := d_oaction (nth_val 1 v);
      c_resp := d_oaction (nth_val 2 v);
      c_startup := d_laction (nth_val 3 v); c_shutdown := d_laction (nth_val 4 v) |}.
+
+Definition d_style (z : Z) : style :=
+  if z =? 0 then YMethod else if z =? 1 then YStatic else if z =? 2 then YClass
+  else if z =? 3 then YAttr else if z =? 4 then YCallObj else YInherited.
+
+(* optional 6th element of a component: the five definition styles (default: methods) *)
+Definition d_scomp (v : val) : scomp :=
+  let y := nth_val 5 v in
+  {| sc_comp := d_comp v;
+     sc_req_y := d_style (dZ (nth_val 0 y)); sc_rsrc_y := d_style (dZ (nth_val 1 y));
+     sc_resp_y := d_style (dZ (nth_val 2 y)); sc_su_y := d_style (dZ (nth_val 3 y));
+     sc_sd_y := d_style (dZ (nth_val 4 y)) |}.
+
+Definition v_perr (e : perr) : val :=
+  L [I 0; I (match e with PETypeError => 1 | PEAttributeError => 2 end)].
 
 Definition d_route (z : Z) : route :=
   if z =? 0 then Routed else if z =? 1 then NoMethod else if z =? 2 then Sink else NotFound.
@@ -89,9 +104,9 @@ Definition run (v : val) : val :=
   match v with
   | L [I 0; asgi; indep; cs; q] =>
     let cs' := dlist d_comp cs in
-    match prepare (dbool asgi) (dbool indep) cs' with
-    | None => L [I 0]
-    | Some st =>
+    match prepare_styled (dbool asgi) (dbool indep) (dlist d_scomp cs) with
+    | inr e => v_perr e
+    | inl st =>
       let '(t, e) := run_request (dbool indep) st (d_request q) in
       let '(t', e') := spec_trace (dbool indep) cs' (d_request q) in
       L [I 1; vlist v_event t; v_ending e; vlist v_event t'; v_ending e';
@@ -111,8 +126,15 @@ Definition run (v : val) : val :=
       if k =? 0 then BNone
       else if k =? 1 then BOne (d_comp (nth_val 1 v))
       else BMany (dlist d_comp (nth_val 1 v)) in
+    let sb0 := match b0 with
+               | L [I k; c] => if k =? 1 then [d_scomp c] else dlist d_scomp c
+               | _ => []
+               end in
+    match prepare_check (dbool asgi) sb0 with
+    | Some e => v_perr e
+    | None =>
     match new_app (dbool asgi) (dbool indep) (d_batch b0) with
-    | None => L [I 0]
+    | None => L [I 0; I 1]
     | Some a0 =>
       let '(a, oks) := add_all (dbool asgi) (dbool indep) a0 (dlist d_batch bs) in
       match a_stacks a with
@@ -121,6 +143,7 @@ Definition run (v : val) : val :=
         let '(t, e) := run_request (dbool indep) st (d_request q) in
         L [I 1; vlist v_event t; v_ending e; vlist vbool oks; vnat (length (a_unprepared a))]
       end
+    end
     end
   | L [I 4; b0; bs; msgs] =>
     (* lifespan over the accumulated _unprepared_middleware *)
